@@ -21,6 +21,7 @@ RUNNER = os.path.join(common.VERIF, "lib", "vectors_runner")
 MODES = (("hash", "hash"), ("keyed_hash", "keyed"), ("derive_key", "derive"))   # JSON field, oracle mode name
 EXPECTED_CASES = 35
 EXPECTED_OUT_LEN = 131
+RUN_TIMEOUT_S = 90      # the unchanged runner needs < 1 s for all 105 cases
 
 UNITS = {
     "vectors": {"props": ["C15"], "tier": "quick",
@@ -99,14 +100,16 @@ def run_unit(name, tier="quick", **_kw):
         for ln, outs in cases:
             for field, _ in MODES:
                 req.append("%s %s %s %d %d 0" % (field, key.hex(), ctx.hex() or "-", ln, len(outs[field])))
-        rc, out, err, secs = run([binp], timeout=600, mem_gb=4, input="\n".join(req) + "\n")
+        rc, out, err, secs = run([binp], timeout=RUN_TIMEOUT_S, mem_gb=4, input="\n".join(req) + "\n")
         lines = out.split()
         if rc != 0 or len(lines) != len(req):
-            res["undecided_reason"] = "vectors_runner gave no complete answer (rc=%s, %d of %d lines): %s" % (
-                rc, len(lines), len(req), err[-500:])
+            res["undecided_reason"] = ("vectors_runner gave no complete answer (rc=%s%s, %d of %d lines; stuck at `%s`): %s"
+                                       % (rc, " = timeout after %d s" % RUN_TIMEOUT_S if rc == -9 else "", len(lines),
+                                          len(req), req[len(lines)] if len(lines) < len(req) else "", err[-500:]))
             return res
         oracle = _load_oracle()
-        failed, n, ok, k = [], 0, 0, 0
+        n, ok, k = 0, 0, 0
+        bad_ref, bad_spec = [], []      # (input_len, field, observed hex, expected hex, note)
         for ln, outs in cases:
             data = bytes(i % 251 for i in range(ln))
             for field, omode in MODES:
@@ -118,39 +121,52 @@ def run_unit(name, tier="quick", **_kw):
                 if got == want.hex():
                     ok += 1
                 else:
-                    first = "reference_impl panicked" if got == "PANIC" else (
-                        "first differing byte %d" % next((i for i in range(min(len(got), 2 * len(want)) // 2)
-                                                          if got[2 * i:2 * i + 2] != want.hex()[2 * i:2 * i + 2]),
-                                                         min(len(got) // 2, len(want))))
-                    failed.append(failed_obligation(
-                        "test_vectors.json", "postcondition",
-                        "reference_impl output differs from test_vectors.json (input_len=%d, %s): %s" % (ln, field, first),
-                        location="test_vectors/test_vectors.json",
-                        clause="cases[input_len=%d].%s == reference_impl::Hasher output (%d bytes)" % (ln, field, len(want)),
-                        inputs={"input_len": ln, "mode": field, "out_len": len(want), "observed": got[:262],
-                                "expected": want.hex()[:262], "against": "reference_impl"},
-                        raw=None))
+                    wh = want.hex()
+                    note = "reference_impl panicked" if got == "PANIC" else "first differing byte %d" % next(
+                        (i for i in range(min(len(got), len(wh)) // 2) if got[2 * i:2 * i + 2] != wh[2 * i:2 * i + 2]),
+                        min(len(got), len(wh)) // 2)
+                    bad_ref.append((ln, field, got, wh, note))
                 # (b) test_vectors.json == the paper's transcription (oracle)
                 n += 1
                 spec = oracle.blake3(data, omode, key=key, context=ctx, out_len=len(want))
                 if spec == want:
                     ok += 1
                 else:
-                    failed.append(failed_obligation(
-                        "test_vectors.json", "postcondition",
-                        "test_vectors.json differs from the specification oracle (input_len=%d, %s)" % (ln, field),
-                        location="test_vectors/test_vectors.json",
-                        clause="cases[input_len=%d].%s == oracle/b3spec.py blake3(..) (%d bytes)" % (ln, field, len(want)),
-                        inputs={"input_len": ln, "mode": field, "out_len": len(want), "observed": want.hex()[:262],
-                                "expected": spec.hex()[:262], "against": "oracle"},
-                        raw=None))
+                    sh, wh = spec.hex(), want.hex()
+                    note = "first differing byte %d" % next(
+                        (i for i in range(len(wh) // 2) if sh[2 * i:2 * i + 2] != wh[2 * i:2 * i + 2]), len(wh) // 2)
+                    bad_spec.append((ln, field, wh, sh, note))
+        # one failed obligation per comparison kind (the first failing case is the replayable input, the others are listed)
+        failed = []
+        for bad, clause, what, against in (
+                (bad_ref, "every case of test_vectors.json == output of reference_impl::Hasher (real crate, same key / "
+                          "context / input pattern / output length)",
+                 "reference_impl output differs from test_vectors.json", "reference_impl"),
+                (bad_spec, "every case of test_vectors.json == specification output (oracle/b3spec.py)",
+                 "test_vectors.json differs from the specification oracle", "oracle")):
+            if not bad:
+                continue
+            ln, field, obs, exp, note = bad[0]
+            failed.append(failed_obligation(
+                "test_vectors.json", "postcondition",
+                "%s in %d of %d (case, mode) pairs; first: input_len=%d mode=%s (%s); all: %s" % (
+                    what, len(bad), 3 * len(cases), ln, field, note,
+                    ", ".join("%d/%s" % (a, b) for a, b, _, _, _ in bad[:40]) + (" ..." if len(bad) > 40 else "")),
+                location="test_vectors/test_vectors.json", clause=clause,
+                inputs={"input_len": ln, "mode": field, "out_len": len(exp) // 2, "key": tv["key"],
+                        "context_string": tv["context_string"], "input_pattern": "byte i = i % 251",
+                        "observed": obs, "expected": exp, "against": against},
+                raw="\n".join("input_len=%d mode=%s %s\n  observed %s\n  expected %s" % (a, b, e2, o[:262], x[:262])
+                              for a, b, o, x, e2 in bad[:6])))
         res["obligations"], res["discharged"], res["failed"] = n, ok, failed
         ncase = len(cases)
         res["bounded"] = ["%d evaluations: %d lengths x 3 modes, %s output bytes each; each compared with "
                           "test_vectors.json (reference_impl, built from the working tree) and with oracle/b3spec.py"
                           % (3 * ncase, ncase, "/".join(sorted({str(len(o[f])) for _, o in cases for f, _ in MODES})))]
-        res["functions_verified"] = ["reference_impl::Hasher::{new,new_keyed,new_derive_key,update,finalize} "
-                                     "(reference_impl/reference_impl.rs) [evaluated on %d published cases]" % (3 * ncase)]
+        # nothing is *verified* here: the functions are evaluated (see `bounded`); the proof is the Verus unit `refimpl`
+        res["functions_verified"] = []
+        res["evaluated"] = ("reference_impl::Hasher::{new,new_keyed,new_derive_key,update,finalize} "
+                            "(reference_impl/reference_impl.rs) on %d published cases" % (3 * ncase))
         res["samples"] = [{"function": "test_vectors.json", "clauses": "cases[input_len=%d].%s == reference_impl == oracle"
                            % (cases[i][0], f)} for i, f in ((0, "hash"), (len(cases) - 1, "derive_key")) if cases]
         shape_ok = (ncase == EXPECTED_CASES and all(len(o[f]) == EXPECTED_OUT_LEN for _, o in cases for f, _ in MODES))
